@@ -7,7 +7,7 @@ use serde_json::value::RawValue as RawJsonValue;
 #[cfg(feature = "unstable-msc4274")]
 use super::gallery::GalleryItemType;
 use super::{
-    relation_serde::deserialize_relation, MessageType, RoomMessageEventContent,
+    relation_serde::deserialize_relation, MessageType, Relation, RoomMessageEventContent,
     RoomMessageEventContentWithoutRelation,
 };
 use crate::Mentions;
@@ -24,7 +24,24 @@ impl<'de> Deserialize<'de> for RoomMessageEventContent {
 
         let MentionsDeHelper { mentions } = from_raw_json_value(&json)?;
 
-        Ok(Self { msgtype: from_raw_json_value(&json)?, relates_to, mentions })
+        let mut msgtype: MessageType = from_raw_json_value(&json)?;
+
+        // The data of a custom msgtype holds every field of the content besides `msgtype` and
+        // `body`. Drop the ones that live in dedicated fields of this struct, otherwise they
+        // would be serialized twice.
+        if let MessageType::_Custom(custom) = &mut msgtype {
+            if let Some(relates_to) = &relates_to {
+                custom.data.remove("m.relates_to");
+                if matches!(relates_to, Relation::Replacement(_)) {
+                    custom.data.remove("m.new_content");
+                }
+            }
+            if mentions.is_some() {
+                custom.data.remove("m.mentions");
+            }
+        }
+
+        Ok(Self { msgtype, relates_to, mentions })
     }
 }
 
@@ -37,7 +54,16 @@ impl<'de> Deserialize<'de> for RoomMessageEventContentWithoutRelation {
 
         let MentionsDeHelper { mentions } = from_raw_json_value(&json)?;
 
-        Ok(Self { msgtype: from_raw_json_value(&json)?, mentions })
+        let mut msgtype: MessageType = from_raw_json_value(&json)?;
+
+        // See the comment in the implementation for `RoomMessageEventContent`.
+        if let MessageType::_Custom(custom) = &mut msgtype {
+            if mentions.is_some() {
+                custom.data.remove("m.mentions");
+            }
+        }
+
+        Ok(Self { msgtype, mentions })
     }
 }
 
